@@ -721,4 +721,398 @@ theorem mergePlurals_cov (orc : Oracle) (locale : Str) (C : List Str → Prop) :
       rw [← e]
       exact hall x hx
 
+/-! ### findability: `locGet`, presence of keys through the two loops -/
+
+theorem locGet_single (keys : List (Str × PV)) (k : Str) : World.locGet keys [k] = .ok (AMap.get? k keys) := by
+  simp [World.locGet]
+
+theorem locGet_group (keys : List (Str × PV)) (k : Str) (q : List Str) (sub : Loc) (hq : q ≠ [])
+    (hg : AMap.get? k keys = some (.subkeys (some sub))) : World.locGet keys (k :: q) = World.locGet sub.keys q := by
+  cases q with
+  | nil => exact absurd rfl hq
+  | cons k2 rest =>
+    rw [World.locGet]
+    · rw [hg]
+    · simp
+
+theorem locGet_cons_some (keys : List (Str × PV)) (k : Str) (q : List Str) (v : PV) (hq : q ≠ [])
+    (h : World.locGet keys (k :: q) = .ok (some v)) :
+    ∃ sub, AMap.get? k keys = some (.subkeys (some sub)) ∧ World.locGet sub.keys q = .ok (some v) := by
+  cases q with
+  | nil => exact absurd rfl hq
+  | cons k2 rest =>
+    rw [World.locGet] at h
+    · split at h
+      · cases h
+      · rename_i l hg
+        exact ⟨l, hg, h⟩
+      · cases h
+      · cases h
+    · simp
+
+theorem get?_isSome_insert' {α : Type} (k k0 : Str) (v : α) (m : List (Str × α))
+    (h : (AMap.get? k0 m).isSome = true) : (AMap.get? k0 (AMap.insert' k v m)).isSome = true := by
+  by_cases e : k0 = k
+  · subst e; rw [get?_insert'_self]; rfl
+  · rw [get?_insert'_other k k0 v e]; exact h
+
+/-- one step of the first loop -/
+theorem loop_head (orc : Oracle) (locale : Str) (fuel : Nat) (path : KeyPath) (k : Str) (v : PV)
+    (rest acc : List (Str × PV)) (groups : List (Str × Cands)) (ws : List Warning)
+    (r : List (Str × PV) × List (Str × Cands) × List Warning)
+    (h : mergePlurals.loop orc locale fuel path ((k, v) :: rest) acc groups ws = .ok r) :
+    ∃ acc1 groups1 ws1, mergePlurals.loop orc locale fuel path rest acc1 groups1 ws1 = .ok r ∧
+      ((∃ sub sub' w, v = .subkeys (some sub) ∧ mergePlurals orc locale fuel (pushKey path k) sub = .ok (sub', w) ∧
+          acc1 = AMap.insert' k (.subkeys (some sub')) acc ∧ groups1 = groups) ∨
+       ((∀ sub, v ≠ .subkeys (some sub)) ∧ isPossiblePlural k v = none ∧ acc1 = AMap.insert' k v acc ∧
+          groups1 = groups) ∨
+       (∃ base rule form, isPossiblePlural k v = some (base, rule, form) ∧
+          (candInsert form (k, rule, v) ((AMap.get? base groups).getD [])).2 = false ∧ acc1 = acc ∧
+          groups1 = AMap.insert' base (candInsert form (k, rule, v) ((AMap.get? base groups).getD [])).1 groups)) := by
+  by_cases hsub : ∃ sub, v = .subkeys (some sub)
+  · obtain ⟨sub, rfl⟩ := hsub
+    rw [loop_subkeys] at h
+    cases hm : mergePlurals orc locale fuel (pushKey path k) sub with
+    | ok r0 =>
+      obtain ⟨sub', w⟩ := r0
+      rw [hm] at h
+      exact ⟨_, _, _, h, .inl ⟨sub, sub', w, rfl, hm, rfl, rfl⟩⟩
+    | err e => rw [hm] at h; cases h
+    | panic p => rw [hm] at h; cases h
+  · have hv : ∀ sub, v ≠ .subkeys (some sub) := fun sub e => hsub ⟨sub, e⟩
+    cases hp : isPossiblePlural k v with
+    | none =>
+      rw [loop_ordinary _ _ _ _ _ _ _ _ _ _ hv hp] at h
+      exact ⟨_, _, _, h, .inr (.inl ⟨hv, rfl, rfl, rfl⟩)⟩
+    | some r0 =>
+      obtain ⟨base, rule, form⟩ := r0
+      rw [loop_candidate _ _ _ _ _ _ _ _ _ _ _ _ _ hp] at h
+      cases hd : (candInsert form (k, rule, v) ((AMap.get? base groups).getD [])).2
+      · rw [hd] at h
+        simp only [Bool.false_eq_true, if_false] at h
+        exact ⟨_, _, _, h, .inr (.inr ⟨base, rule, form, rfl, hd, rfl, rfl⟩)⟩
+      · rw [hd] at h; simp at h
+
+/-- one step of the second loop -/
+theorem finish_head (orc : Oracle) (locale : Str) (path : KeyPath) (base : Str) (cands : Cands)
+    (rest : List (Str × Cands)) (keys : List (Str × PV)) (ws : List Warning) (r : List (Str × PV) × List Warning)
+    (h : finishGroups orc locale path ((base, cands) :: rest) keys ws = .ok r) :
+    ∃ keys1 ws1, finishGroups orc locale path rest keys1 ws1 = .ok r ∧
+      (keys1 = putBack keys cands ∨
+       ∃ key rt o ck, Key.new base = some key ∧ keys1 = AMap.insert' key (.plurals rt ck o (formsOf cands)) keys) := by
+  by_cases hl : cands.length = 1
+  · rw [finish_single _ _ _ _ _ _ _ _ hl] at h
+    exact ⟨_, _, h, .inl rfl⟩
+  · cases hf : cands.find? (fun x => x.1 == .other) with
+    | none =>
+      rw [finish_no_other _ _ _ _ _ _ _ _ hf] at h
+      exact ⟨_, _, h, .inl rfl⟩
+    | some x =>
+      obtain ⟨fo, ko, ruleTy, other⟩ := x
+      rw [finish_merge _ _ _ _ _ _ _ _ fo ko ruleTy other hl hf] at h
+      split at h
+      · cases h
+      · rename_i key hkey
+        split at h
+        · cases h
+        · split at h
+          · cases h
+          · cases h
+          · split at h
+            · cases h
+            · exact ⟨_, _, h, .inr ⟨key, ruleTy, other, _, hkey, rfl⟩⟩
+
+theorem loop_present (orc : Oracle) (locale : Str) (fuel : Nat) (path : KeyPath) (k0 : Str)
+    (keys acc : List (Str × PV)) (groups : List (Str × Cands)) (ws : List Warning)
+    (acc' : List (Str × PV)) (groups' : List (Str × Cands)) (ws' : List Warning)
+    (h0 : (AMap.get? k0 acc).isSome = true)
+    (h : mergePlurals.loop orc locale fuel path keys acc groups ws = .ok (acc', groups', ws')) :
+    (AMap.get? k0 acc').isSome = true :=
+  loop_gen orc locale fuel path (fun m => (AMap.get? k0 m).isSome = true) keys acc groups ws acc' groups' ws'
+    (fun _ _ m hm _ _ => get?_isSome_insert' _ _ _ m hm)
+    (fun _ _ m _ _ _ hm _ _ => get?_isSome_insert' _ _ _ m hm) h0 h
+
+theorem finish_present (orc : Oracle) (locale : Str) (path : KeyPath) (k0 : Str)
+    (groups : List (Str × Cands)) (keys : List (Str × PV)) (ws : List Warning)
+    (keys' : List (Str × PV)) (ws' : List Warning)
+    (h0 : (AMap.get? k0 keys).isSome = true)
+    (h : finishGroups orc locale path groups keys ws = .ok (keys', ws')) :
+    (AMap.get? k0 keys').isSome = true :=
+  finish_gen orc locale path (fun m => (AMap.get? k0 m).isSome = true) groups keys ws keys' ws'
+    (fun _ _ _ _ _ m hm => get?_isSome_insert' _ _ _ m hm)
+    (fun _ _ _ _ _ _ _ _ _ m _ _ hm _ => get?_isSome_insert' _ _ _ m hm) h0 h
+
+theorem loop_sorted (orc : Oracle) (locale : Str) (fuel : Nat) (path : KeyPath)
+    (keys acc : List (Str × PV)) (groups : List (Str × Cands)) (ws : List Warning)
+    (acc' : List (Str × PV)) (groups' : List (Str × Cands)) (ws' : List Warning)
+    (h0 : Sorted acc)
+    (h : mergePlurals.loop orc locale fuel path keys acc groups ws = .ok (acc', groups', ws')) : Sorted acc' :=
+  loop_gen orc locale fuel path (fun m => Sorted m) keys acc groups ws acc' groups' ws'
+    (fun _ _ _ hm _ _ => (AMap.insert'_spec _ _ hm).1)
+    (fun _ _ _ _ _ _ hm _ _ => (AMap.insert'_spec _ _ hm).1) h0 h
+
+/-- an ordinary key is in the map after the first loop -/
+theorem loop_ordinary_present (orc : Oracle) (locale : Str) (fuel : Nat) (path : KeyPath) (k : Str) (v : PV)
+    (hv : ∀ sub, v ≠ .subkeys (some sub)) (hp : isPossiblePlural k v = none) :
+    ∀ (keys acc : List (Str × PV)) (groups : List (Str × Cands)) (ws : List Warning)
+      (acc' : List (Str × PV)) (groups' : List (Str × Cands)) (ws' : List Warning),
+      (k, v) ∈ keys → mergePlurals.loop orc locale fuel path keys acc groups ws = .ok (acc', groups', ws') →
+      (AMap.get? k acc').isSome = true
+  | [], _, _, _, _, _, _, hm, _ => by cases hm
+  | (k0, v0) :: rest, acc, groups, ws, acc', groups', ws', hm, h => by
+    obtain ⟨acc1, groups1, ws1, h1, hstep⟩ := loop_head _ _ _ _ _ _ _ _ _ _ _ h
+    rcases List.mem_cons.mp hm with e | hm
+    · simp only [Prod.mk.injEq] at e
+      obtain ⟨rfl, rfl⟩ := e
+      rcases hstep with ⟨sub, _, _, e, _⟩ | ⟨_, _, rfl, _⟩ | ⟨b, r, f, e, _⟩
+      · exact absurd e (hv sub)
+      · exact loop_present _ _ _ _ _ _ _ _ _ _ _ _ (by rw [get?_insert'_self]; rfl) h1
+      · rw [hp] at e; cases e
+    · exact loop_ordinary_present orc locale fuel path k v hv hp rest _ _ _ _ _ _ hm h1
+
+theorem groupsInv_step {P : Str → PV → Prop} {groups : List (Str × Cands)} (hinv : GroupsInv P groups)
+    {k : Str} {v : PV} {base : Str} {rule : RuleTy} {form : Form}
+    (hp : isPossiblePlural k v = some (base, rule, form)) (hP : P k v) :
+    GroupsInv P (AMap.insert' base (candInsert form (k, rule, v) ((AMap.get? base groups).getD [])).1 groups) := by
+  intro b cs hmem
+  rcases mem_insert' _ _ _ _ hmem with e | hmem
+  · simp only [Prod.mk.injEq] at e
+    obtain ⟨rfl, rfl⟩ := e
+    obtain ⟨hs, hall⟩ := groupsInv_cur hinv b
+    obtain ⟨s1, _, s3, _⟩ := candInsert_spec form (k, rule, v) _ hs
+    refine ⟨s1, fun x hx => ?_⟩
+    rcases (s3 x).mp hx with rfl | ⟨hx, _⟩
+    · exact ⟨hp, hP⟩
+    · exact hall x hx
+  · exact hinv b cs hmem
+
+/-- a candidate key is in its group after the first loop -/
+theorem loop_cand_present (orc : Oracle) (locale : Str) (fuel : Nat) (path : KeyPath) (k : Str) (v : PV)
+    (base : Str) (rule : RuleTy) (form : Form) (hp : isPossiblePlural k v = some (base, rule, form)) :
+    ∀ (keys acc : List (Str × PV)) (groups : List (Str × Cands)) (ws : List Warning)
+      (acc' : List (Str × PV)) (groups' : List (Str × Cands)) (ws' : List Warning),
+      ((k, v) ∈ keys ∨ ∃ cs, AMap.get? base groups = some cs ∧ ∃ x ∈ cs, x.2.1 = k) →
+      GroupsInv (fun _ _ => True) groups →
+      mergePlurals.loop orc locale fuel path keys acc groups ws = .ok (acc', groups', ws') →
+      ∃ cs, AMap.get? base groups' = some cs ∧ ∃ x ∈ cs, x.2.1 = k
+  | [], acc, groups, ws, acc', groups', ws', hyp, _, h => by
+    rw [loop_nil] at h
+    injection h with h
+    simp only [Prod.mk.injEq] at h
+    obtain ⟨_, rfl, _⟩ := h
+    rcases hyp with hm | hr
+    · cases hm
+    · exact hr
+  | (k0, v0) :: rest, acc, groups, ws, acc', groups', ws', hyp, hinv, h => by
+    have hns := plain_not_subkeys (plainValue_of_possible hp)
+    obtain ⟨acc1, groups1, ws1, h1, hstep⟩ := loop_head _ _ _ _ _ _ _ _ _ _ _ h
+    rcases hstep with ⟨sub, _, _, e, _, _, rfl⟩ | ⟨_, hp0, _, rfl⟩ | ⟨b0, r0, f0, hp0, hd, _, rfl⟩
+    · refine loop_cand_present orc locale fuel path k v base rule form hp rest _ _ _ _ _ _ ?_ hinv h1
+      rcases hyp with hm | hr
+      · rcases List.mem_cons.mp hm with e' | hm
+        · simp only [Prod.mk.injEq] at e'
+          obtain ⟨rfl, rfl⟩ := e'
+          exact absurd e (hns _)
+        · exact .inl hm
+      · exact .inr hr
+    · refine loop_cand_present orc locale fuel path k v base rule form hp rest _ _ _ _ _ _ ?_ hinv h1
+      rcases hyp with hm | hr
+      · rcases List.mem_cons.mp hm with e' | hm
+        · simp only [Prod.mk.injEq] at e'
+          obtain ⟨rfl, rfl⟩ := e'
+          rw [hp] at hp0; cases hp0
+        · exact .inl hm
+      · exact .inr hr
+    · refine loop_cand_present orc locale fuel path k v base rule form hp rest _ _ _ _ _ _ ?_
+        (groupsInv_step hinv hp0 trivial) h1
+      obtain ⟨hs, _⟩ := groupsInv_cur hinv b0
+      obtain ⟨_, s2, s3, _⟩ := candInsert_spec f0 (k0, r0, v0) _ hs
+      rcases hyp with hm | ⟨cs, hg, x, hx, hxk⟩
+      · rcases List.mem_cons.mp hm with e' | hm
+        · simp only [Prod.mk.injEq] at e'
+          obtain ⟨rfl, rfl⟩ := e'
+          rw [hp] at hp0
+          simp only [Option.some.injEq, Prod.mk.injEq] at hp0
+          obtain ⟨rfl, rfl, rfl⟩ := hp0
+          exact .inr ⟨_, get?_insert'_self _ _ _, (form, k, rule, v), (s3 _).mpr (.inl rfl), rfl⟩
+        · exact .inl hm
+      · by_cases hb : b0 = base
+        · subst hb
+          refine .inr ⟨_, get?_insert'_self _ _ _, x, (s3 x).mpr (.inr ⟨?_, ?_⟩), hxk⟩
+          · rw [hg]; exact hx
+          · intro e
+            have : (candInsert f0 (k0, r0, v0) ((AMap.get? b0 groups).getD [])).2 = true :=
+              s2.mpr ⟨x, by rw [hg]; exact hx, e⟩
+            rw [hd] at this; cases this
+        · exact .inr ⟨cs, by rw [get?_insert'_other _ _ _ (fun e => hb e.symm)]; exact hg, x, hx, hxk⟩
+
+/-- a group already in the map stays while only other keys are inserted -/
+theorem loop_group_kept (orc : Oracle) (locale : Str) (fuel : Nat) (path : KeyPath) (g : Str) (G : PV)
+    (keys acc : List (Str × PV)) (groups : List (Str × Cands)) (ws : List Warning)
+    (acc' : List (Str × PV)) (groups' : List (Str × Cands)) (ws' : List Warning)
+    (hne : ∀ kv ∈ keys, kv.1 ≠ g) (h0 : AMap.get? g acc = some G)
+    (h : mergePlurals.loop orc locale fuel path keys acc groups ws = .ok (acc', groups', ws')) :
+    AMap.get? g acc' = some G :=
+  loop_gen orc locale fuel path (fun m => AMap.get? g m = some G) keys acc groups ws acc' groups' ws'
+    (fun kv hkv m hm _ _ => by
+      show AMap.get? g (AMap.insert' kv.1 kv.2 m) = some G
+      rw [get?_insert'_other _ _ _ (fun e => hne kv hkv e.symm)]; exact hm)
+    (fun kv hkv m _ _ _ hm _ _ => by
+      show AMap.get? g (AMap.insert' kv.1 _ m) = some G
+      rw [get?_insert'_other _ _ _ (fun e => hne kv hkv e.symm)]; exact hm) h0 h
+
+/-- a group of the old map is, merged, in the map after the first loop -/
+theorem loop_group_present (orc : Oracle) (locale : Str) (fuel : Nat) (path : KeyPath) (g : Str) (sub sub' : Loc)
+    (w : List Warning) (hmp : mergePlurals orc locale fuel (pushKey path g) sub = .ok (sub', w)) :
+    ∀ (keys acc : List (Str × PV)) (groups : List (Str × Cands)) (ws : List Warning)
+      (acc' : List (Str × PV)) (groups' : List (Str × Cands)) (ws' : List Warning),
+      keys.Pairwise (fun a b => a.1 ≠ b.1) → (g, PV.subkeys (some sub)) ∈ keys →
+      mergePlurals.loop orc locale fuel path keys acc groups ws = .ok (acc', groups', ws') →
+      AMap.get? g acc' = some (.subkeys (some sub'))
+  | [], _, _, _, _, _, _, _, hm, _ => by cases hm
+  | (k0, v0) :: rest, acc, groups, ws, acc', groups', ws', hpw, hm, h => by
+    have hpw' := List.pairwise_cons.mp hpw
+    obtain ⟨acc1, groups1, ws1, h1, hstep⟩ := loop_head _ _ _ _ _ _ _ _ _ _ _ h
+    rcases List.mem_cons.mp hm with e | hm
+    · simp only [Prod.mk.injEq] at e
+      obtain ⟨rfl, rfl⟩ := e
+      have hne : ∀ kv ∈ rest, kv.1 ≠ g := fun kv hkv e => hpw'.1 kv hkv e.symm
+      rcases hstep with ⟨sub0, sub0', w0, e, hm0, rfl, _⟩ | ⟨hv, _⟩ | ⟨b, r, f, e, _⟩
+      · simp only [PV.subkeys.injEq, Option.some.injEq] at e
+        subst e
+        rw [hmp] at hm0
+        simp only [Res.ok.injEq, Prod.mk.injEq] at hm0
+        obtain ⟨rfl, _⟩ := hm0
+        exact loop_group_kept _ _ _ _ g _ rest _ _ _ _ _ _ hne (get?_insert'_self _ _ _) h1
+      · exact absurd rfl (hv sub)
+      · exact absurd rfl (plain_not_subkeys (plainValue_of_possible e) _)
+    · exact loop_group_present orc locale fuel path g sub sub' w hmp rest _ _ _ _ _ _ hpw'.2 hm h1
+
+/-- a group in the map stays through the second loop (a plural at its key would be rejected) -/
+theorem finish_group_kept (orc : Oracle) (locale : Str) (path : KeyPath) (g : Str) (G : PV)
+    (groups : List (Str × Cands)) (keys : List (Str × PV)) (ws : List Warning)
+    (keys' : List (Str × PV)) (ws' : List Warning)
+    (hne : ∀ base cs, (base, cs) ∈ groups → ∀ x ∈ cs, x.2.1 ≠ g)
+    (hs : Sorted keys) (h0 : AMap.get? g keys = some G)
+    (h : finishGroups orc locale path groups keys ws = .ok (keys', ws')) :
+    AMap.get? g keys' = some G :=
+  (finish_gen orc locale path (fun m => Sorted m ∧ AMap.get? g m = some G) groups keys ws keys' ws'
+    (fun base cs hm x hx m hI => by
+      refine ⟨(AMap.insert'_spec _ _ hI.1).1, ?_⟩
+      rw [get?_insert'_other _ _ _ (fun e => hne base cs hm x hx e.symm)]; exact hI.2)
+    (fun base cs hm key fo ko r o ck m _ _ hI hd => by
+      refine ⟨(AMap.insert'_spec _ _ hI.1).1, ?_⟩
+      by_cases e : g = key
+      · subst e
+        rw [insert_displaces _ _ _ m hI.1 hI.2] at hd
+        cases hd
+      · rw [get?_insert'_other _ _ _ e]; exact hI.2) ⟨hs, h0⟩ h).2
+
+theorem putBack_present : ∀ (cs : Cands) (keys : List (Str × PV)) (x : Form × Str × RuleTy × PV), x ∈ cs →
+    (AMap.get? x.2.1 (putBack keys cs)).isSome = true
+  | [], _, _, hx => by cases hx
+  | y :: cs, keys, x, hx => by
+    show (AMap.get? x.2.1 (putBack (AMap.insert' y.2.1 y.2.2.2 keys) cs)).isSome = true
+    rcases List.mem_cons.mp hx with rfl | hx
+    · exact putBack_gen (fun m => (AMap.get? x.2.1 m).isSome = true) cs _
+        (fun _ _ m hm => get?_isSome_insert' _ _ _ m hm) (by rw [get?_insert'_self]; rfl)
+    · exact putBack_present cs _ x hx
+
+/-- a candidate is put back under its own key, or something is stored under the base key of its group -/
+theorem finish_cand_present (orc : Oracle) (locale : Str) (path : KeyPath) (base : Str) (cs : Cands)
+    (x : Form × Str × RuleTy × PV) (hx : x ∈ cs) :
+    ∀ (groups : List (Str × Cands)) (keys : List (Str × PV)) (ws : List Warning)
+      (keys' : List (Str × PV)) (ws' : List Warning),
+      (base, cs) ∈ groups → finishGroups orc locale path groups keys ws = .ok (keys', ws') →
+      (AMap.get? x.2.1 keys').isSome = true ∨ ∃ key, Key.new base = some key ∧ (AMap.get? key keys').isSome = true
+  | [], _, _, _, _, hm, _ => by cases hm
+  | (b0, c0) :: rest, keys, ws, keys', ws', hm, h => by
+    obtain ⟨keys1, ws1, h1, hstep⟩ := finish_head _ _ _ _ _ _ _ _ _ h
+    rcases List.mem_cons.mp hm with e | hm
+    · simp only [Prod.mk.injEq] at e
+      obtain ⟨rfl, rfl⟩ := e
+      rcases hstep with rfl | ⟨key, rt, o, ck, hkey, rfl⟩
+      · exact .inl (finish_present _ _ _ _ _ _ _ _ _ (putBack_present cs keys x hx) h1)
+      · exact .inr ⟨key, hkey, finish_present _ _ _ _ _ _ _ _ _ (by rw [get?_insert'_self]; rfl) h1⟩
+    · exact finish_cand_present orc locale path base cs x hx rest _ _ _ _ hm h1
+
+/-- findability: an old leaf is still stored under its path, or something is stored under `mergedLast` of its path -/
+theorem mergePlurals_find (orc : Oracle) (locale : Str) :
+    ∀ (fuel : Nat) (path : KeyPath) (l l' : Loc) (ws : List Warning),
+      mergePlurals orc locale fuel path l = .ok (l', ws) → SortedTree l.keys →
+      ∀ (q : List Str) (v : PV), World.locGet l.keys q = .ok (some v) → isGroup v = false →
+        (∃ v', World.locGet l'.keys q = .ok (some v')) ∨
+        (∃ q' v', mergedLast q = some q' ∧ World.locGet l'.keys q' = .ok (some v'))
+  | 0, path, l, l', ws, h, _, _, _, _, _ => by simp [mergePlurals] at h
+  | fuel + 1, path, .mk n t keys ss c, l', ws, h, hs, q, v, hq, hv => by
+    have hs : SortedTree keys := hs
+    have hq : World.locGet keys q = .ok (some v) := hq
+    rw [mergePlurals_succ] at h
+    split at h
+    · cases h
+    · cases h
+    · rename_i acc groups ws0 hl
+      split at h
+      · rename_i keys' ws1 hf
+        simp only [Res.ok.injEq, Prod.mk.injEq] at h
+        obtain ⟨rfl, _⟩ := h
+        show (∃ v', World.locGet keys' q = .ok (some v')) ∨
+          (∃ q' v', mergedLast q = some q' ∧ World.locGet keys' q' = .ok (some v'))
+        cases q with
+        | nil => simp [World.locGet] at hq
+        | cons k q2 =>
+          by_cases hq2 : q2 = []
+          · subst hq2
+            rw [locGet_single] at hq
+            injection hq with hq
+            have hmem := get?_mem k v keys hq
+            have hnsub : ∀ sub, v ≠ .subkeys (some sub) := by
+              intro sub e; subst e; simp [isGroup] at hv
+            cases hp : isPossiblePlural k v with
+            | none =>
+              have h1 := loop_ordinary_present orc locale fuel path k v hnsub hp keys [] [] [] acc groups ws0 hmem hl
+              have h2 := finish_present orc locale path k groups acc ws0 keys' ws1 h1 hf
+              obtain ⟨v', hv'⟩ := Option.isSome_iff_exists.mp h2
+              exact .inl ⟨v', by rw [locGet_single, hv']⟩
+            | some r =>
+              obtain ⟨base, rule, form⟩ := r
+              obtain ⟨cs, hg, x, hx, hxk⟩ := loop_cand_present orc locale fuel path k v base rule form hp
+                keys [] [] [] acc groups ws0 (.inl hmem) (fun b cs hm => by cases hm) hl
+              have hgm := get?_mem base cs groups hg
+              rcases finish_cand_present orc locale path base cs x hx groups acc ws0 keys' ws1 hgm hf with
+                h2 | ⟨key, hkey, h2⟩
+              · rw [hxk] at h2
+                obtain ⟨v', hv'⟩ := Option.isSome_iff_exists.mp h2
+                exact .inl ⟨v', by rw [locGet_single, hv']⟩
+              · obtain ⟨v', hv'⟩ := Option.isSome_iff_exists.mp h2
+                have hml := mergedLast_snoc [] hp hkey
+                simp only [List.nil_append] at hml
+                exact .inr ⟨[key], v', hml, by rw [locGet_single, hv']⟩
+          · obtain ⟨sub, hg, hsubq⟩ := locGet_cons_some keys k q2 v hq2 hq
+            have hmem := get?_mem k _ keys hg
+            obtain ⟨sub', w, hmp⟩ := loop_sub_ok orc locale fuel path keys [] [] [] _ hl k sub hmem
+            have hsv := (SortedV_loc sub).mp ((SortedK_iff keys).mp hs.2 _ hmem)
+            have ih := mergePlurals_find orc locale fuel _ sub sub' w hmp hsv q2 v hsubq hv
+            have hpw : keys.Pairwise (fun a b => a.1 ≠ b.1) :=
+              List.Pairwise.imp (fun h => AMap.strLt_ne h) hs.1
+            have hacc := loop_group_present orc locale fuel path k sub sub' w hmp keys [] [] [] acc groups ws0
+              hpw hmem hl
+            have hsacc : Sorted acc :=
+              loop_sorted orc locale fuel path keys [] [] [] acc groups ws0 List.Pairwise.nil hl
+            have hG : GroupsInv (fun k v => (k, v) ∈ keys) groups :=
+              loop_inv orc locale fuel path _ keys [] [] [] acc groups ws0 (fun kv hkv => hkv)
+                (fun b cs hm => by cases hm) hl
+            have hne : ∀ base cs, (base, cs) ∈ groups → ∀ x ∈ cs, x.2.1 ≠ k := by
+              intro base cs hm x hx e
+              obtain ⟨hp, hxm⟩ := (hG base cs hm).2 x hx
+              have hxm' : (k, x.2.2.2) ∈ keys := e ▸ hxm
+              exact plain_not_subkeys (plainValue_of_possible hp) _ (sorted_unique hs.1 hxm' hmem)
+            have hfin := finish_group_kept orc locale path k _ groups acc ws0 keys' ws1 hne hsacc hacc hf
+            rcases ih with ⟨v', hv'⟩ | ⟨q', v', hml, hv'⟩
+            · exact .inl ⟨v', by rw [locGet_group keys' k q2 sub' hq2 hfin]; exact hv'⟩
+            · exact .inr ⟨k :: q', v', mergedLast_cons k hq2 hml, by
+                rw [locGet_group keys' k q' sub' (mergedLast_ne_nil hml) hfin]; exact hv'⟩
+      · cases h
+      · cases h
+
 end I18nVerif.PipeInv
